@@ -279,6 +279,11 @@ fn step<const K: usize>() {
                 "C14: endpoint reachable again but the next call did not succeed");
         assert!(attempts == 1);
     }
+    // (5) part of the inductive invariant behind (2): "has been connected" never reverts. If one step (poll_ready or the call that
+    // takes a parked error) could reset it, a LATER connect failure of an eager channel would come out of poll_ready as Err - which
+    // the tower Buffer worker treats as fatal: the channel would never recover although the endpoint is reachable again.
+    assert!(!pre_connected_before || rc.has_been_connected,
+            "C14: a channel that had been connected is treated as never connected again (a later connect failure would kill it)");
     core::mem::forget(r);
     core::mem::forget(rc);
 }
